@@ -14,6 +14,9 @@ func (u verifNAL) typ() uint8  { return u.hdr & 0x1F }
 // verifAnnexBBody returns n symbolic bytes satisfying what emulation prevention
 // guarantees for a NAL unit body: no two consecutive zero bytes, last byte non-zero.
 func verifAnnexBBody(n int) []byte {
+	if n > 4096 {
+		return verifLongFrame(n, true)
+	}
 	b := verifBytes("body", n)
 	for i := 0; i+1 < n; i++ {
 		verifAssume(b[i] != 0 || b[i+1] != 0)
@@ -107,6 +110,18 @@ var verifC10Menu = [][2]int{ // {class, size}; class 4 = SPS+PPS pair (size = SP
 // fixed item sequences for the dedicated harnesses (nil = free choice from the menu)
 var verifC10Fixed [][2]int
 
+// fixed MTU choices for the dedicated harnesses (nil = any MTU)
+var verifC10MTUs []int
+
+// one unit longer than 64 KiB: FU-A offsets do not fit 16 bits
+func VerifC10LongUnit() {
+	verifC10Fixed = [][2]int{{0, verifPick("size", []int{65540, 80010})}}
+	verifC10MTUs = []int{65535, 40000, 30011}
+	VerifC10RoundTrip()
+	verifC10Fixed, verifC10MTUs = nil, nil
+	verifCover("C10.long.end")
+}
+
 // SPS+PPS, then two ordinary units, split over calls in every way: state kept by
 // the payloader after the parameter sets were flushed must not leak into later units
 func VerifC10AfterKeyFrame() {
@@ -125,6 +140,9 @@ func VerifC10DroppedAfterKeyFrame() {
 func VerifC10RoundTrip() {
 	mtu := verifU16("mtu")
 	verifAssume(mtu >= 3)
+	if verifC10MTUs != nil {
+		mtu = uint16(verifPick("mtu", verifC10MTUs))
+	}
 	pay := &H264Payloader{DisableStapA: verifCase("disableStapA", 0, 1) == 1}
 	model := &verifH264Model{stapA: !pay.DisableStapA}
 	dep := &H264Packet{IsAVC: verifCase("avc", 0, verifBound("C10.avc")) == 1}
